@@ -449,6 +449,9 @@ def base : B :=
            .first 2 (.connect (conn idB true)) true,
            .packet 2 (.subscribe 1 [(tAB, 0)]),
            .srvPub { qos := 1, retain := true, topic := tAB, payload := [7] }]).1
+
+/-- `base`, and in addition connection 2 and the in-process callback 1000 listen on the will topic "w" -/
+def base2 : B := (run base [.packet 2 (.subscribe 2 [(tW, 1)]), .srvSub 1000 tW 0]).1
 end Ex
 
 end Mqtt.Proofs.BrokerLife
